@@ -165,10 +165,14 @@ def is_float(v) -> bool:
 
 
 class Machine:
-    def __init__(self, generic=False, budget=200000, lenient_uninit=False, record_access=False):
+    def __init__(self, generic=False, budget=200000, lenient_uninit=False, record_access=False,
+                 lenient_overflow=False):
         self.generic = generic
         self.budget = budget
         self.lenient_uninit = lenient_uninit
+        # lenient_overflow: record the int32 overflow as an event and continue with the wrapped
+        # value (what the LLVM back end computes), so that value oracles can still judge the run
+        self.lenient_overflow = lenient_overflow
         self.blocks: list[Block] = []
         self.steps = 0
         self.loop_iters: dict[int, int] = {}
@@ -278,6 +282,9 @@ class Machine:
     def _e_int(self, e):
         v = e.value
         if type(v) is not int or not (INT_MIN <= v <= INT_MAX):
+            if self.lenient_overflow and type(v) is int:
+                self.events.append(("int-literal-range", f"integer literal {v} does not fit int32"))
+                return ((v - INT_MIN) % 2**32) + INT_MIN
             raise Fault("int-literal-range", f"integer literal {v!r} does not fit int32")
         return v
 
@@ -310,6 +317,9 @@ class Machine:
         if tl is int and tr is int:
             v = l + r if op == 0 else l - r if op == 1 else l * r
             if not (INT_MIN <= v <= INT_MAX):
+                if self.lenient_overflow:
+                    self.events.append(("int-overflow", f"{l} {'+-*'[op]} {r} overflows int32"))
+                    return ((v - INT_MIN) % 2**32) + INT_MIN
                 raise Fault("int-overflow", f"{l} {'+-*'[op]} {r} overflows int32")
             return v
         if tl is Ptr:
